@@ -15,8 +15,10 @@
 #endif
 #ifdef PROP_C09
 #define ENS_C09(x) __CPROVER_ensures(x)
+#define REQ_C09(x) __CPROVER_requires(x)
 #else
 #define ENS_C09(x)
+#define REQ_C09(x)
 #endif
 #ifdef PROP_C10
 #define ENS_C10(x) __CPROVER_ensures(x)
@@ -26,11 +28,7 @@
 
 /* "the next index exceeds every existing index of that day": stated by C09; C05, C07 and C10 rely on it too (a reused name is a refused
  * rename or an overwritten .gz), so their units prove and use it as well; C06 does not need it */
-#if defined(PROP_C09) || defined(PROP_C05) || defined(PROP_C07) || defined(PROP_C10)
-#define ENS_NEXTIDX(x) __CPROVER_ensures(x)
-#else
-#define ENS_NEXTIDX(x)
-#endif
+#define ENS_NEXTIDX(x) __CPROVER_ensures(x)     /* (the C06 unit uses this contract without re-proving it: it is C09's statement) */
 typedef RotatingFileSink_RotatingFileSinkPrivate Priv;
 static inline Priv *QScopedPointer_RotatingFileSink_RotatingFileSinkPrivate_op_arrow(QScopedPointer_RotatingFileSink_RotatingFileSinkPrivate d) { return d.p; }
 /* qobject_cast<QFile*>(QObject*): the device of a FileSink is a QFile (created by createFilePtr) */
@@ -43,6 +41,8 @@ static inline QFile *qobject_cast_QFileP__QObjectP(QObject *o) { return (QFile *
     && (self)->_base._base.m_device.p == &DEV(&g_sinkfile))
 #define PRIV_OK(d) (__CPROVER_is_fresh(d, sizeof(*(d))) && __CPROVER_is_fresh((d)->q_ptr, sizeof(*(d)->q_ptr)) \
     && (d)->q_ptr->_base._base.m_device.p == &DEV(&g_sinkfile) && PRIV_FLAGS(d))
+/* the private object's mutable state (everything but the configuration); a changed representation shows up here as an UNDECIDED compile error, not as a frame violation */
+#define PRIV_STATE(d) (d)->m_initialized, (d)->m_currentLogDate
 #define PRIV_FLAGS(d) (IS_BOOL((d)->m_rotationOnStartup) && IS_BOOL((d)->m_rotationDaily) && IS_BOOL((d)->m_compression) && IS_BOOL((d)->m_initialized) \
     && ((d)->m_currentLogDate.jd == JD_NULL || ((d)->m_currentLogDate.jd > -4000000000LL && (d)->m_currentLogDate.jd < 4000000000LL)))
 #define LEDGER_OK() (DIR_INV() && ACTIVE_VALID() && IS_BOOL(g_suffix_empty) && ROT_VALID(g_new) && IS_BOOL(g_gz_exists) && IS_BOOL(g_gz_complete) && IS_BOOL(g_gz_has_all) \
@@ -56,7 +56,7 @@ static inline QFile *qobject_cast_QFileP__QObjectP(QObject *o) { return (QFile *
 #define LEDGER_RANGE2() LEDGER_RANGE_K(12)        /* loop-carrying helpers */
 
 #define LEDGER_GHOSTS g_w, g_R_count, g_seq, g_A_exists, g_A_size, g_A_recs, g_A_day, g_A_mday, g_A_mtime, g_open, g_W, g_lost, g_foreign_touched, g_removes, g_renames_ok, \
-    g_last_write_len, g_last_write_ok, g_writes, g_new, g_new_is_w, g_idx_bound, g_gz_exists, g_gz_complete, g_gz_has_all, g_today, g_list_own_seen, g_list_next, g_first_cell, \
+    g_last_write_len, g_last_write_ok, g_writes, g_comp_removes, g_new, g_new_is_w, g_idx_bound, g_gz_exists, g_gz_complete, g_gz_has_all, g_today, g_list_own_seen, g_list_next, g_first_cell, \
     DEV(&g_sinkfile).open, DEV(&g_sinkfile).mode
 
 /* ---- findNextIndexForDate: scans the directory; result exceeds the index of every existing rotated file of that day ---- */
@@ -101,12 +101,14 @@ ENS_C06(self->m_maxFileCount <= 0 ==> (g_removes == __CPROVER_old(g_removes) && 
 ENS_C06(self->m_maxFileCount >= 2 ==> (g_R_count <= self->m_maxFileCount - 1))
 ENS_C06((self->m_maxFileCount >= 2 && __CPROVER_old(g_R_count) <= self->m_maxFileCount - 1) ==> (g_removes == __CPROVER_old(g_removes) && g_R_count == __CPROVER_old(g_R_count)))
 __CPROVER_ensures(LEDGER_RANGE2() && g_gz_exists == 0)
+ENS_C05(g_lost == __CPROVER_old(g_lost))
+ENS_C10(g_lost == __CPROVER_old(g_lost))
 ;
 #define LOOP_RotatingFileSink_RotatingFileSinkPrivate_removeOldFiles_0 \
   __CPROVER_assigns(g_w, g_R_count, g_removes, g_lost, g_foreign_touched, g_new, g_gz_exists, g_first_cell, rotatedFiles._base.lo) \
   __CPROVER_loop_invariant(LEDGER_OK() && LEDGER_RANGE2() && g_gz_exists == 0 && rotatedFiles._base.kind == L_ROTLIST && IS_BOOL(rotatedFiles._base.sorted) && 0 <= rotatedFiles._base.lo && rotatedFiles._base.lo <= rotatedFiles._base.n) \
   __CPROVER_loop_invariant(REMOVE_LOOP_COUNT) \
-  __CPROVER_loop_invariant(g_foreign_touched == __CPROVER_loop_entry(g_foreign_touched) && g_removes - __CPROVER_loop_entry(g_removes) == (unsigned long long)rotatedFiles._base.lo) \
+  __CPROVER_loop_invariant(g_lost == __CPROVER_loop_entry(g_lost) && g_foreign_touched == __CPROVER_loop_entry(g_foreign_touched) && g_removes - __CPROVER_loop_entry(g_removes) == (unsigned long long)rotatedFiles._base.lo) \
   __CPROVER_decreases(rotatedFiles._base.n - rotatedFiles._base.lo)
 #ifdef FS_FAILURES
 #define REMOVE_LOOP_COUNT (rotatedFiles._base.n - rotatedFiles._base.lo <= g_R_count)
@@ -131,12 +133,14 @@ __CPROVER_requires(LEDGER_OK())
 __CPROVER_requires(SZ_RANGE())
 __CPROVER_requires(LEDGER_RANGE_K(8))
 __CPROVER_requires(g_gz_exists == 0)
+__CPROVER_requires(IS_BOOL(g_clock_frozen))
+REQ_C09(g_A_recs > 0 ==> self->m_currentLogDate.jd == g_A_day)
 REQ_C07(g_L == self->m_maxFileSize && (g_L <= 0 || g_A_size <= g_L || g_A_recs == 1))
 __CPROVER_assigns(LEDGER_GHOSTS, self->m_currentLogDate)
 __CPROVER_ensures(LEDGER_OK() && g_gz_exists == 0 && PRIV_FLAGS(self))
 /* ranges: at most one new file, sizes only move */
 __CPROVER_ensures(g_seq <= __CPROVER_old(g_seq) + 1 && g_idx_bound <= __CPROVER_old(g_idx_bound) + 1 && g_A_size <= __CPROVER_old(g_A_size) && g_A_recs <= __CPROVER_old(g_A_recs) && SZ_RANGE())
-__CPROVER_ensures(g_writes == __CPROVER_old(g_writes) && g_W == __CPROVER_old(g_W) && g_today >= __CPROVER_old(g_today))
+__CPROVER_ensures(g_writes == __CPROVER_old(g_writes) && g_W == __CPROVER_old(g_W) && g_today >= __CPROVER_old(g_today) && (g_clock_frozen ==> g_today == __CPROVER_old(g_today)))
 /* a file-count limit of 1 disables rotation altogether: no file operation at all */
 __CPROVER_ensures(self->m_maxFileCount == 1 ==> (ACTIVE_UNCHANGED() && g_open == __CPROVER_old(g_open) && g_renames_ok == __CPROVER_old(g_renames_ok) && g_removes == __CPROVER_old(g_removes) \
                                                && g_R_count == __CPROVER_old(g_R_count) && g_lost == __CPROVER_old(g_lost) && g_foreign_touched == __CPROVER_old(g_foreign_touched) \
